@@ -206,6 +206,10 @@ class HistoryExplorer:
                             key="I5-stale-after-update:" + op.name, token=("I5", op.name))
                 nk = self.key(w)
                 if nk in self.states:
+                    smp = o.notes.setdefault("_samples", [])
+                    if len(smp) < 6 and depth >= 1 and op.kind == "call":
+                        smp.append({"history": hist + [op.name], "returns_to_state": nk[:12],
+                                    "invariants_checked": ["I1 arguments bit-identical", "I2 global numerical state", "I3 repeat + probes"]})
                     # I3: history independence - the live world arrived along a new path; probes must agree
                     pr = self.run_probes(w)
                     o.check("I3 results independent of history: " + label, pr == self.probe_digests[nk],
@@ -216,6 +220,9 @@ class HistoryExplorer:
                         o.notes["cap_states_hit"] = 1
                         continue
                     self.states[nk] = (copy.deepcopy(w), depth + 1, hist + [op.name])
+                    smp = o.notes.setdefault("_samples", [])
+                    if len(smp) < 4:
+                        smp.append({"history_reaching_new_state": hist + [op.name], "state": nk[:12], "depth": depth + 1})
                     self.probe_digests[nk] = self.run_probes(w)
                     self.check_fresh(w, self.probe_digests[nk], label)
                     frontier.append(nk)
